@@ -112,6 +112,9 @@ func (c *ColArr[T]) DecodeColumn(r *Reader, rows int) error {
 	if err := checkRows(size); err != nil {
 		return errors.Wrap(err, "array size")
 	}
+	if err := checkOffsets(c.Offsets); err != nil {
+		return errors.Wrap(err, "offsets")
+	}
 	if err := c.Data.DecodeColumn(r, size); err != nil {
 		return errors.Wrap(err, "decode data")
 	}
@@ -158,4 +161,17 @@ func (c *ColArr[T]) Result(column string) ResultColumn {
 // Results return Results containing single column.
 func (c *ColArr[T]) Results(column string) Results {
 	return Results{c.Result(column)}
+}
+
+// checkOffsets checks that array (or map) offsets received from wire do not
+// decrease, so every row is a valid range of the data column.
+func checkOffsets(offsets ColUInt64) error {
+	var prev uint64
+	for i, v := range offsets {
+		if v < prev {
+			return errors.Errorf("[%d]: offset %d is less than previous %d", i, v, prev)
+		}
+		prev = v
+	}
+	return nil
 }
